@@ -52,6 +52,9 @@ c03 = {"property": "C03", "title": "proto: Unmarshal(Marshal(v)) == v and Size(v
 c03["units"].insert(0, {"name": "H03-varint64", "desc": "encodeVarint/sizeOfVarint/decodeVarint, zig-zag, LE32/64 on every 64-bit value", "pkg": "./proto", "overlay": ["harness/proto"], "harness": "vfH_c07_scalar", "covers": ["done"]})
 c03["units"].append({"name": "H03-entry", "desc": "length prefixes at the 1-byte/2-byte varint boundary: map entry with string value, map entry with message value, repeated message element, payload length sweeping 116..132", "pkg": "./proto", "overlay": ["harness/proto"], "harness": "vfH_c03_entry",
                      "grid": {"vfMode": {"all": [0, 1, 2]}, "vfLen": {"quick": "118..130", "thorough": "110..135,250..262"}}, "covers": ["done"], "timeout_ms": 30000, "concret": ["github.com/segmentio/encoding/proto.sizeOfVarint"]})
+for idx, nm in ((7, "maps"), (9, "mapptr")):
+    c03["units"].append({"name": "H03-seq-" + nm, "desc": "round trip right after an Unmarshal that failed inside a map entry (pooled scratch entry must come back clean) (shape %s)" % nm, "pkg": "./proto", "overlay": ["harness/proto"], "harness": "vfH_c03_seq",
+                         "grid": {"vfShape": {"all": [idx]}, "vfMode": {"all": [0, 1, 2] if nm == "mapptr" else [0]}, "vfWide": {"all": [0]}, "vfLen": {"quick": [0, 1], "thorough": [0, 1, 2]}, "vfLen2": {"quick": [1], "thorough": [1, 2]}}, "covers": ["done"], "timeout_ms": 30000, "concret": ["github.com/segmentio/encoding/proto.sizeOfVarint"], "split": {"all": 6}})
 c16 = {"property": "C16", "title": "proto.MarshalTo honours the caller's buffer for every size", "level": "model_checking", "assumptions": common_assume + ["every destination length 0..Size(v)+1 is tried on every path; the destination slice has 3 bytes of spare capacity filled with guard bytes"],
        "outside_claim": ["types outside the catalogue"],
        "units": units("H16", "vfH_c16_shape", "MarshalTo for every destination length 0..Size+1 with guard bytes", ["done", "fits", "short"], reps_q=[0, 1, 2], reps_t=[0, 1, 2, 3])}
